@@ -60,10 +60,18 @@ class Ctx:
         return _Timer(self, name)
 
     # a failing case: either catalogued (KNOWN-FINDING) or a VIOLATION
-    def fail(self, signature, payload, what=None):
-        """signature: stable tag string computed from the case's features + symptom."""
+    def fail(self, signature, payload, what=None, tags=None):
+        """signature: stable symptom string. With `tags` (the case's feature tags computed by the
+        specification) a finding matches when its symptom equals `signature` and its `tags` are a
+        subset of the case's tags (DESIGN §7); without, by (property, signature)."""
         for f in self.findings.get("findings", []):
-            if f.get("property") == self.prop and sig_match(f, signature):
+            if f.get("property") != self.prop:
+                continue
+            if tags is not None and "tags" in f:
+                hit = f.get("symptom") == signature and set(f["tags"]) <= set(tags)
+            else:
+                hit = sig_match(f, signature)
+            if hit:
                 key = f["signature"]
                 if key not in self.known_hit:
                     self.known_hit[key] = 0
@@ -73,7 +81,7 @@ class Ctx:
         self._nrep += 1
         path = os.path.join(self.replay_dir, f"{self._nrep:04d}.json")
         with open(path, "w") as fh:
-            json.dump({"property": self.prop, "signature": signature, "what": what,
+            json.dump({"property": self.prop, "signature": signature, "what": what, "tags": sorted(tags) if tags else None,
                        "tier": self.tier, "seed": self.seed, "case": payload}, fh, indent=1, default=str)
         self.violations.append({"signature": signature, "replay": path})
         if len(self.violations) <= 20:
